@@ -47,6 +47,7 @@ func (e *Env) newExec(prefix []int, pending *[][]int) *Exec {
 	return &Exec{
 		Cfg: e.Cfg, dec: append([]int(nil), prefix...), pending: pending,
 		Bounded: map[string]int{}, lenChoice: map[string]int{}, globals: map[*ssa.Global]*Cell{}, UsedContracts: map[string]bool{}, Externals: map[string]bool{},
+		callResults: map[string]tval{},
 		forceMemo: map[*LazyV]Val{}, sliceMemo: map[*LazyV]*SliceV{}, opaqueRedo: map[string][]func(){},
 		siteCount: map[string]int{}, worldBase: "",
 	}
@@ -74,7 +75,9 @@ func (e *Env) Explore(maxPaths int, body func(ex *Exec)) (paths []*PathResult, c
 					case infeasible:
 						pr.Outcome = "infeasible"
 					default:
-						panic(r)
+						// a defect of the executor or a model meeting a value shape it does not
+						// handle: the path is outside the subset (never silently dropped)
+						pr.Outcome, pr.Msg = "abort", fmt.Sprintf("internal: %v", r)
 					}
 				}
 			}()
@@ -410,7 +413,7 @@ func (e *Env) frameObligations(ex *Exec, fn *ssa.Function, ct *Contract, ev *eva
 			// whole-table havoc by a callee: needs a table-level modifies
 			ok := worldCond
 			for _, m := range mods {
-				if (m.Kind == "table" && m.ID == id) || (m.Kind == "prefix" && strings.HasPrefix(id, m.ID)) {
+				if (m.Kind == "table" && m.ID == id) || (m.Kind == "prefix" && modOfTable(id) == strings.TrimSuffix(m.ID, ":")) {
 					ok = smt.Or(ok, condOf(m))
 				}
 			}
@@ -420,7 +423,7 @@ func (e *Env) frameObligations(ex *Exec, fn *ssa.Function, ct *Contract, ev *eva
 			goal := worldCond
 			for _, m := range mods {
 				switch {
-				case m.Kind == "table" && m.ID == id, m.Kind == "prefix" && strings.HasPrefix(id, m.ID):
+				case m.Kind == "table" && m.ID == id, m.Kind == "prefix" && modOfTable(id) == strings.TrimSuffix(m.ID, ":"):
 					goal = smt.Or(goal, condOf(m))
 				case m.Kind == "row" && m.ID == id:
 					var ks []*smt.Term
@@ -605,19 +608,35 @@ func (ex *Exec) applyContractSig(fr *frame, calleeKey string, pkg *types.Package
 		}
 	}
 	// results
+	resPrefix := label + "!r"
+	var resKeys []*smt.Term
+	if ct.Pure {
+		// a pure function: the result is a function of the scalar arguments and the state version
+		if ka, ok := ex.keyArgs(scalarOnly(args)); ok && len(scalarOnly(args))+countCtx(args)+countOpaque(ex, args) == len(args) {
+			resPrefix = "pure!" + calleeKey + "!r"
+			resKeys = append(ka, smt.IntC(int64(ex.stateVersion(w))))
+		}
+	}
 	var res Val
 	switch rs.Len() {
 	case 0:
 	case 1:
-		res = ex.symbolic(rs.At(0).Type(), Namer{Prefix: label + "!r"})
+		res = ex.symbolic(rs.At(0).Type(), Namer{Prefix: resPrefix, Keys: resKeys})
 	default:
 		tv := make(TupleV, rs.Len())
 		for i := range tv {
-			tv[i] = ex.symbolic(rs.At(i).Type(), Namer{Prefix: fmt.Sprintf("%s!r%d", label, i)})
+			tv[i] = ex.symbolic(rs.At(i).Type(), Namer{Prefix: fmt.Sprintf("%s%d", resPrefix, i), Keys: resKeys})
 		}
 		res = tv
 	}
 	env.bindResultsSig(rs, res, ev)
+	{
+		var rt types.Type = rs
+		if rs.Len() == 1 {
+			rt = rs.At(0).Type()
+		}
+		ex.callResults[label] = tval{res, rt}
+	}
 	env.evalLets(ct, ev, false)
 	// every combination of instantiations of the quantified variables
 	var inst func(i int)
@@ -864,4 +883,40 @@ func (e *Env) CheckLemma(l *Lemma) []*Oblig {
 		}
 	}
 	return out
+}
+
+func countCtx(args []Val) int {
+	n := 0
+	for _, a := range args {
+		if _, ok := a.(*CtxV); ok {
+			n++
+		}
+	}
+	return n
+}
+
+// countOpaque: receiver-like arguments (keepers: symbolic structs of opaque dependencies)
+// do not distinguish calls.
+func countOpaque(ex *Exec, args []Val) int {
+	n := 0
+	for _, a := range args {
+		switch v := a.(type) {
+		case *StructV:
+			if !isCoin(v.T) {
+				n++
+			}
+		case *OpaqueV:
+			n++
+		}
+	}
+	return n
+}
+
+// stateVersion identifies the ghost-world state on this path (the number of state-changing
+// steps so far); nil world = 0.
+func (ex *Exec) stateVersion(w *World) int {
+	if w == nil {
+		return 0
+	}
+	return len(w.Log)
 }
